@@ -1,1 +1,591 @@
-(* placeholder *)
+(* Lemmas about Pipeline.v (C17): the emitted output does not depend on any of the permutation
+   parameters (hash-map iteration orders, the order in which the rayon workers run).
+
+   Shape of the argument:
+     1. every worker writes one entry of `pkgs` (and, in split mode, one directory) under its own key; the
+        keys of different workers are distinct, so the map reached after all of them have run is the sorted
+        association list of (key, text of that group) -- whatever the order they ran in        (wi_fold)
+     2. the package tree is rebuilt from the key set; write_stream sorts the children of every node by path
+        before it walks them, the paths of siblings are pairwise distinct, and sorting a list with
+        pairwise distinct keys forgets the order it came in (ListAux.isort_unique)        (from_pkgs_sorted_inv)
+     3. workspace mode: crates are written under pairwise distinct names; `members` is sorted after a
+        `dedup` that is the identity on pairwise distinct names                             (workspace_inv)
+     4. protobuf nested messages: emitted in declaration order; the AHashMap is only looked up, and a
+        look-up in a table with pairwise distinct keys does not depend on the order of the table
+                                                                                              (lower_message_inv) *)
+From Coq Require Import String List Bool Arith Ascii Lia Permutation Sorted.
+From PVBld Require Import Names Pipeline Proofs.ListAux.
+Import ListNotations.
+Open Scope list_scope.
+
+(* ---- a fold of sorted insertions is a sort ------------------------------------------------------- *)
+Section FoldInsert.
+  Context {A K : Type} (key : A -> K) (cmp : K -> K -> comparison) (ok : cmp_ok cmp).
+
+  Lemma fold_insert_gen l r :
+    fold_left (fun m x => insert key cmp x m) l (isort key cmp r) = isort key cmp (rev l ++ r).
+  Proof.
+    revert r. induction l as [|x l IH]; intros r; cbn [fold_left rev app]; [reflexivity|].
+    change (insert key cmp x (isort key cmp r)) with (isort key cmp (x :: r)).
+    rewrite IH. now rewrite <- app_assoc.
+  Qed.
+
+  Lemma fold_insert_isort l :
+    fold_left (fun m x => insert key cmp x m) l [] = isort key cmp (rev l).
+  Proof. rewrite <- (app_nil_r (rev l)). exact (fold_insert_gen l []). Qed.
+
+  Lemma insert_keys x m k : In k (map key (insert key cmp x m)) <-> k = key x \/ In k (map key m).
+  Proof.
+    pose proof (Permutation_map key (insert_perm key cmp x m)) as P. cbn [map] in P. split; intros H.
+    - apply (Permutation_in _ P) in H. destruct H as [H|H]; [left; now symmetry|now right].
+    - apply (Permutation_in _ (Permutation_sym P)). destruct H as [H|H]; [left; now symmetry|now right].
+  Qed.
+
+  (* any update function that behaves like a sorted insertion on absent keys *)
+  Lemma fold_ins_canon {B : Type} (F : B -> A) (f : list A -> B -> list A) :
+    (forall m b, ~ In (key (F b)) (map key m) -> f m b = insert key cmp (F b) m) ->
+    forall l, NoDup (map (fun b => key (F b)) l) ->
+    fold_left f l [] = isort key cmp (rev (map F l)).
+  Proof.
+    intros Hf l N. rewrite <- fold_insert_isort.
+    assert (G : forall m, (forall b, In b l -> ~ In (key (F b)) (map key m)) ->
+                     fold_left f l m = fold_left (fun m x => insert key cmp x m) (map F l) m).
+    { induction l as [|b l IH]; intros m Hm; cbn [fold_left map]; [reflexivity|].
+      inversion N as [|? ? N1 N2]; subst.
+      rewrite (Hf m b) by (apply Hm; now left). apply IH; [assumption|].
+      intros b' Hb'. rewrite insert_keys. intros [E|I].
+      - apply N1. rewrite <- E. apply (in_map (fun b => key (F b)) l b' Hb').
+      - apply (Hm b'); [now right|assumption]. }
+    apply G. intros b _ [].
+  Qed.
+
+  (* the result does not depend on the order in which the (pairwise distinct) keys arrive *)
+  Lemma fold_ins_perm {B : Type} (F : B -> A) (f : list A -> B -> list A) :
+    (forall m b, ~ In (key (F b)) (map key m) -> f m b = insert key cmp (F b) m) ->
+    forall l l', Permutation l l' -> NoDup (map (fun b => key (F b)) l) ->
+    fold_left f l [] = isort key cmp (map F l').
+  Proof.
+    intros Hf l l' P N. rewrite (fold_ins_canon F f Hf l N).
+    apply (isort_unique key cmp ok).
+    - rewrite <- Permutation_rev. now apply Permutation_map.
+    - rewrite map_rev. apply NoDup_rev. rewrite map_map. exact N.
+  Qed.
+End FoldInsert.
+
+Lemma fmap_push_absent m k s :
+  ~ In k (map fst m) -> fmap_push m k s = insert fst path_cmp (k, s) m.
+Proof.
+  induction m as [|[k' s'] r IH]; intros N; cbn [fmap_push insert fst]; [reflexivity|].
+  unfold leb. cbn [fst]. destruct (path_cmp k k') eqn:E.
+  - exfalso. apply N. left. symmetry. now apply (cmp_eq _ path_cmp_ok).
+  - reflexivity.
+  - f_equal. apply IH. intros I. apply N. now right.
+Qed.
+
+Lemma fmap_put_absent {K V} (cmp : K -> K -> comparison) (ok : cmp_ok cmp) (m : list (K * V)) k v :
+  ~ In k (map fst m) -> fmap_put cmp m k v = insert fst cmp (k, v) m.
+Proof.
+  induction m as [|[k' v'] r IH]; intros N; cbn [fmap_put insert fst]; [reflexivity|].
+  unfold leb. cbn [fst]. destruct (cmp k k') eqn:E.
+  - exfalso. apply N. left. symmetry. now apply (cmp_eq _ ok).
+  - reflexivity.
+  - f_equal. apply IH. intros I. apply N. now right.
+Qed.
+
+(* ---- 1. the workers ---------------------------------------------------------------------------------- *)
+Section Workers.
+  Variable item : Type.
+  Variable mod_path : item -> path.
+  Variable render : item -> string.
+  Variable kind_prefix : item -> string.
+  Variable item_name : item -> string.
+
+  (* text pushed to the DashMap entry of group g, directory log written for group g *)
+  Definition txt (split : bool) (g : path * list item) : string :=
+    if split then snd (split_group item render kind_prefix item_name (fst g) (snd g))
+    else render_group item render (snd g).
+  Definition logf (g : path * list item) : dir_log :=
+    fst (split_group item render kind_prefix item_name (fst g) (snd g)).
+
+  Definition wi_step (split : bool) (st : list (path * string) * fs) (g : path * list item) :=
+    let '(pkgs, files) := st in
+    if split then
+      let '(log, s) := split_group item render kind_prefix item_name (fst g) (snd g) in
+      (fmap_push pkgs (fst g) s, fmap_put path_cmp files (fst g) log)
+    else (fmap_push pkgs (fst g) (render_group item render (snd g)), files).
+
+  (* the state is a pair of maps updated componentwise *)
+  Lemma wi_step_split split work pk fl :
+    fold_left (wi_step split) work (pk, fl) =
+    (fold_left (fun m g => fmap_push m (fst g) (txt split g)) work pk,
+     if split then fold_left (fun m g => fmap_put path_cmp m (fst g) (logf g)) work fl else fl).
+  Proof.
+    revert pk fl. induction work as [|g work IH]; intros pk fl; cbn [fold_left].
+    - now destruct split.
+    - unfold wi_step at 2. unfold txt, logf. destruct split.
+      + destruct (split_group item render kind_prefix item_name (fst g) (snd g)) as [log s] eqn:E.
+        rewrite IH. cbn [fst snd]. reflexivity.
+      + rewrite IH. reflexivity.
+  Qed.
+
+  Definition groups (items : list item) : list (path * list item) := group_by mod_path path_eqb items.
+
+  Definition canon_pkgs (split : bool) (items : list item) : list (path * string) :=
+    isort fst path_cmp (map (fun g => (fst g, txt split g)) (groups items)).
+  Definition canon_files (split : bool) (items : list item) : fs :=
+    if split then isort fst path_cmp (map (fun g => (fst g, logf g)) (groups items)) else [].
+
+  Lemma groups_nodup items : NoDup (map fst (groups items)).
+  Proof. apply group_by_nodup. apply path_eqb_eq. Qed.
+
+  Lemma wi_fold split items work :
+    Permutation work (groups items) ->
+    fold_left (wi_step split) work ([], []) = (canon_pkgs split items, canon_files split items).
+  Proof.
+    intros P. rewrite wi_step_split.
+    assert (N : NoDup (map fst work)).
+    { eapply Permutation_NoDup; [apply Permutation_map, Permutation_sym, P|apply groups_nodup]. }
+    f_equal.
+    - unfold canon_pkgs.
+      apply (fold_ins_perm fst path_cmp path_cmp_ok (fun g => (fst g, txt split g))
+               (fun m g => fmap_push m (fst g) (txt split g))); try assumption.
+      intros m b H. now apply fmap_push_absent.
+    - unfold canon_files. destruct split; [|reflexivity].
+      apply (fold_ins_perm fst path_cmp path_cmp_ok (fun g => (fst g, logf g))
+               (fun m g => fmap_put path_cmp m (fst g) (logf g))); try assumption.
+      intros m b H. apply fmap_put_absent; [apply path_cmp_ok|assumption].
+  Qed.
+End Workers.
+
+(* ---- 2. the package tree ------------------------------------------------------------------------------- *)
+Lemma sort_tree_node p cs : sort_tree (Node p cs) = Node p (isort node_path path_cmp (map sort_tree cs)).
+Proof. reflexivity. Qed.
+
+Lemma in_group_by_snd {A K} (f : A -> K) (eqb : K -> K -> bool) l kv :
+  In kv (group_by f eqb l) -> snd kv = filter (fun x => eqb (f x) (fst kv)) l.
+Proof.
+  unfold group_by. intros H. apply in_map_iff in H. destruct H as [k [E _]]. subst kv. reflexivity.
+Qed.
+
+Lemma tails_perm l l' : Permutation l l' -> Permutation (tails l) (tails l').
+Proof. intros P. unfold tails. apply Permutation_map. now apply filter_perm'. Qed.
+
+Lemma max_len_perm l l' : Permutation l l' -> max_len l = max_len l'.
+Proof. induction 1; cbn [max_len]; lia. Qed.
+
+Lemma app_one_inj {A} (base : list A) a b : base ++ [a] = base ++ [b] -> a = b.
+Proof. intros H. apply app_inv_head in H. now injection H. Qed.
+
+Lemma NoDup_map_inj {A B} (f : A -> B) l : (forall a b, f a = f b -> a = b) -> NoDup l -> NoDup (map f l).
+Proof.
+  intros I. induction 1 as [|x l N1 N2 IH]; cbn [map]; constructor; [|assumption].
+  intros H. apply in_map_iff in H. destruct H as [y [E Hy]]. apply I in E. now subst.
+Qed.
+
+Lemma from_pkgs_sorted_inv pi pi' :
+  perm_fun pi -> perm_fun pi' ->
+  forall fuel base l l', Permutation l l' ->
+    isort node_path path_cmp (map sort_tree (from_pkgs pi fuel base l)) =
+    isort node_path path_cmp (map sort_tree (from_pkgs pi' fuel base l')).
+Proof.
+  intros Hpi Hpi'. induction fuel as [|f IH]; intros base l l' P; cbn [from_pkgs]; [reflexivity|].
+  destruct l as [|x r].
+  - apply Permutation_nil in P. now subst.
+  - destruct l' as [|x' r']; [apply Permutation_sym, Permutation_nil in P; discriminate|].
+    pose proof (filter_perm' nonempty _ _ P) as PF.
+    remember (filter nonempty (x :: r)) as ne eqn:Ene.
+    remember (filter nonempty (x' :: r')) as ne' eqn:Ene'.
+    clear Ene Ene' P x r x' r'.
+    destruct ne as [|y ne0].
+    + apply Permutation_nil in PF. subst ne'. reflexivity.
+    + destruct ne' as [|y' ne0']; [apply Permutation_sym, Permutation_nil in PF; discriminate|].
+      set (ne := y :: ne0) in *. set (ne' := y' :: ne0') in *.
+      set (Gk := fun (q : string -> list path -> list pkg_node) (src : list path) (k : string) =>
+                   sort_tree (Node (base ++ [k])
+                     (q k (tails (filter (fun x => String.eqb (head_seg x) k) src))))).
+      assert (S1 : forall (q : (string -> list path -> list pkg_node)) (rho : list (string * list path) -> list (string * list path)) src,
+                 perm_fun rho ->
+                 Permutation
+                   (map sort_tree
+                      (map (fun kv => let p := base ++ [fst kv] in Node p (q (fst kv) (tails (snd kv))))
+                           (rho (group_by head_seg String.eqb src))))
+                   (map (Gk q src) (first_keys head_seg String.eqb [] src))).
+      { intros q rho src Hrho. rewrite map_map.
+        rewrite (map_ext_in _ (fun kv => Gk q src (fst kv))).
+        - rewrite <- (map_map fst (Gk q src)). apply Permutation_map.
+          rewrite <- (group_by_keys head_seg String.eqb src). apply Permutation_map. apply Hrho.
+        - intros kv Hkv. apply (Permutation_in _ (Hrho _)) in Hkv.
+          apply in_group_by_snd in Hkv. unfold Gk. cbn zeta. now rewrite Hkv. }
+      pose proof (S1 (fun k v => from_pkgs pi f (base ++ [k]) v) pi ne Hpi) as L1.
+      pose proof (S1 (fun k v => from_pkgs pi' f (base ++ [k]) v) pi' ne' Hpi') as L2.
+      cbn zeta in L1, L2.
+      apply (isort_unique node_path path_cmp path_cmp_ok).
+      * rewrite L1, L2.
+        rewrite (map_ext (Gk (fun k v => from_pkgs pi f (base ++ [k]) v) ne)
+                         (Gk (fun k v => from_pkgs pi' f (base ++ [k]) v) ne')).
+        -- apply Permutation_map. apply first_keys_perm; [apply String.eqb_eq|exact PF].
+        -- intros k. unfold Gk. rewrite !sort_tree_node. f_equal. apply IH.
+           apply tails_perm. now apply filter_perm'.
+      * eapply Permutation_NoDup; [apply Permutation_map, Permutation_sym, L1|].
+        rewrite map_map.
+        rewrite (map_ext _ (fun k => base ++ [k])) by (intros k; reflexivity).
+        apply NoDup_map_inj; [apply app_one_inj|].
+        apply first_keys_nodup. apply String.eqb_eq.
+Qed.
+
+Lemma pkg_tree_sorted_inv pi pi' keys keys' :
+  perm_fun pi -> perm_fun pi' -> Permutation keys keys' ->
+  map sort_tree (pkg_tree pi keys) = map sort_tree (pkg_tree pi' keys').
+Proof.
+  intros H H' P. unfold pkg_tree. cbn [map]. rewrite !sort_tree_node. do 2 f_equal.
+  rewrite (max_len_perm _ _ P). now apply from_pkgs_sorted_inv.
+Qed.
+
+Lemma write_stream_tree pk nodes nodes' :
+  map sort_tree nodes = map sort_tree nodes' -> write_stream pk nodes = write_stream pk nodes'.
+Proof. intros H. unfold write_stream. now rewrite H. Qed.
+
+(* ---- write_items: single file and split ------------------------------------------------------------------ *)
+Section WriteItems.
+  Variable item : Type.
+  Variable mod_path : item -> path.
+  Variable render : item -> string.
+  Variable kind_prefix : item -> string.
+  Variable item_name : item -> string.
+
+  Notation WI := (write_items item mod_path render kind_prefix item_name).
+
+  (* closed form: no permutation parameter is left *)
+  Definition write_items_canon (split : bool) (items : list item) : string * fs :=
+    let pkgs := canon_pkgs item mod_path render kind_prefix item_name split items in
+    (write_stream pkgs (pkg_tree (fun l => l) (map fst pkgs)),
+     canon_files item mod_path render kind_prefix item_name split items).
+
+  Lemma perm_fun_id {A} : perm_fun (fun l : list A => l).
+  Proof. intros l. reflexivity. Qed.
+
+  Lemma write_items_closed pi_mods pi_work pi_keys pi_tree :
+    perm_fun pi_mods -> perm_fun pi_work -> perm_fun pi_keys -> perm_fun pi_tree ->
+    forall split items,
+      WI pi_mods pi_work pi_keys pi_tree split items = write_items_canon split items.
+  Proof.
+    intros H1 H2 H3 H4 split items. unfold write_items, write_items_canon.
+    change (fold_left _ (pi_work (pi_mods (group_by mod_path path_eqb items))) ([], []))
+      with (fold_left (wi_step item render kind_prefix item_name split)
+                      (pi_work (pi_mods (group_by mod_path path_eqb items))) ([], [])).
+    rewrite (wi_fold item mod_path render kind_prefix item_name split items).
+    - cbn zeta. f_equal. apply write_stream_tree.
+      apply pkg_tree_sorted_inv; [assumption|apply perm_fun_id|apply H3].
+    - etransitivity; [apply H2|apply H1].
+  Qed.
+
+  (* C17_single / C17_split: both components (the stream written to the output file and, in split mode,
+     the write log of every directory) are the same for all orders *)
+  Lemma write_items_inv
+        pi_mods pi_work pi_keys pi_tree pi_mods' pi_work' pi_keys' pi_tree' :
+    perm_fun pi_mods -> perm_fun pi_work -> perm_fun pi_keys -> perm_fun pi_tree ->
+    perm_fun pi_mods' -> perm_fun pi_work' -> perm_fun pi_keys' -> perm_fun pi_tree' ->
+    forall split items,
+      WI pi_mods pi_work pi_keys pi_tree split items = WI pi_mods' pi_work' pi_keys' pi_tree' split items.
+  Proof. intros. rewrite !write_items_closed by assumption. reflexivity. Qed.
+
+  (* the set of (directory, file name, content) triples written in split mode *)
+  Definition files_of (out : string * fs) : list (path * string * string) :=
+    flat_map (fun d => map (fun fc => (fst d, fst fc, snd fc)) (snd d)) (snd out).
+
+  Lemma split_files_inv
+        pi_mods pi_work pi_keys pi_tree pi_mods' pi_work' pi_keys' pi_tree' :
+    perm_fun pi_mods -> perm_fun pi_work -> perm_fun pi_keys -> perm_fun pi_tree ->
+    perm_fun pi_mods' -> perm_fun pi_work' -> perm_fun pi_keys' -> perm_fun pi_tree' ->
+    forall items,
+      fst (WI pi_mods pi_work pi_keys pi_tree true items) = fst (WI pi_mods' pi_work' pi_keys' pi_tree' true items) /\
+      files_of (WI pi_mods pi_work pi_keys pi_tree true items) =
+      files_of (WI pi_mods' pi_work' pi_keys' pi_tree' true items).
+  Proof.
+    intros. rewrite (write_items_inv pi_mods pi_work pi_keys pi_tree pi_mods' pi_work' pi_keys' pi_tree') by assumption.
+    split; reflexivity.
+  Qed.
+
+  (* ---- 3. workspace ------------------------------------------------------------------------------------ *)
+  Variable loc : Type.
+  Variable loc_eqb : loc -> loc -> bool.
+  Hypothesis loc_eqb_eq : forall a b, loc_eqb a b = true <-> a = b.
+  Variable location : item -> loc.
+  Variable crate_name : loc -> string.
+  Variable repubs : loc -> list item -> list item.
+  Variable dep_names : loc -> list item -> list string.
+
+  Notation WS := (workspace item mod_path render kind_prefix item_name).
+
+  Definition crate_names (lm_items : list item) : list string :=
+    map (fun kv => crate_name (fst kv)) (group_by location loc_eqb lm_items).
+
+  Lemma dedup_adj_nodup l : NoDup l -> dedup_adj l = l.
+  Proof.
+    induction l as [|a [|b r] IH]; intros N; cbn [dedup_adj]; try reflexivity.
+    inversion N as [|? ? N1 N2]; subst.
+    destruct (String.eqb a b) eqn:E.
+    - apply String.eqb_eq in E. subst. exfalso. apply N1. now left.
+    - f_equal. now apply IH.
+  Qed.
+
+  Lemma append_char_inj c a b : (a ++ String c EmptyString = b ++ String c EmptyString)%string -> a = b.
+  Proof.
+    revert b. induction a as [|x r IH]; intros [|x' r'] H; cbn in H.
+    - reflexivity.
+    - injection H as H1 H2. destruct r'; discriminate.
+    - injection H as H1 H2. destruct r; discriminate.
+    - injection H as H1 H2. subst. f_equal. now apply IH.
+  Qed.
+
+  Definition member_line (n : string) : string := ("    """ ++ n ++ """")%string.
+  Lemma member_line_inj a b : member_line a = member_line b -> a = b.
+  Proof. unfold member_line. cbn. intros H. injection H as H. now apply append_char_inj in H. Qed.
+
+  Definition crate_canon (split : bool) (kv : loc * list item) : string * crate_out :=
+    (crate_name (fst kv),
+     (dep_names (fst kv) (snd kv), write_items_canon split (snd kv ++ repubs (fst kv) (snd kv)))).
+
+  Definition workspace_canon (split : bool) (lm_items : list item) : list string * list (string * crate_out) :=
+    let g := group_by location loc_eqb lm_items in
+    (isort (fun s => s) str_cmp (map (fun kv => member_line (crate_name (fst kv))) g),
+     isort fst str_cmp (map (crate_canon split) g)).
+
+  Lemma create_crate_closed pi_mods pi_work pi_keys pi_tree :
+    perm_fun pi_mods -> perm_fun pi_work -> perm_fun pi_keys -> perm_fun pi_tree ->
+    forall split k v,
+      create_crate item mod_path render kind_prefix item_name pi_mods pi_work pi_keys pi_tree loc repubs dep_names
+                   split k v =
+      (dep_names k v, write_items_canon split (v ++ repubs k v)).
+  Proof. intros. unfold create_crate. now rewrite write_items_closed. Qed.
+
+  Lemma fold_left_ext {A B} (f g : A -> B -> A) : (forall a b, f a b = g a b) -> forall l a, fold_left f l a = fold_left g l a.
+  Proof. intros E. induction l as [|b l IH]; intros a; cbn [fold_left]; [reflexivity|]. now rewrite E, IH. Qed.
+
+  Lemma workspace_closed pi_mods pi_work pi_keys pi_tree pi_entry pi_crates :
+    perm_fun pi_mods -> perm_fun pi_work -> perm_fun pi_keys -> perm_fun pi_tree ->
+    perm_fun pi_entry -> perm_fun pi_crates ->
+    forall split lm_items,
+      NoDup (crate_names lm_items) ->
+      WS pi_mods pi_work pi_keys pi_tree loc loc_eqb location crate_name repubs dep_names pi_entry pi_crates
+         split lm_items = workspace_canon split lm_items.
+  Proof.
+    intros H1 H2 H3 H4 H5 H6 split lm N. unfold workspace, workspace_canon. cbn zeta.
+    set (g := group_by location loc_eqb lm) in *.
+    assert (Ng : NoDup (map (fun kv : loc * list item => crate_name (fst kv)) (pi_entry g))).
+    { eapply Permutation_NoDup; [apply Permutation_map, Permutation_sym, H5|exact N]. }
+    f_equal.
+    - change (fun kv : loc * list item => ("    """ ++ crate_name (fst kv) ++ """")%string)
+        with (fun kv : loc * list item => member_line (crate_name (fst kv))).
+      assert (Nm : NoDup (map (fun kv : loc * list item => member_line (crate_name (fst kv))) (pi_entry g))).
+      { rewrite <- (map_map (fun kv : loc * list item => crate_name (fst kv)) member_line).
+        apply NoDup_map_inj; [apply member_line_inj|exact Ng]. }
+      rewrite dedup_adj_nodup by exact Nm.
+      apply (isort_unique (fun s : string => s) str_cmp str_cmp_ok).
+      + apply Permutation_map. apply H5.
+      + now rewrite map_id.
+    - rewrite (fold_left_ext _ (fun m kv => fmap_put str_cmp m (crate_name (fst kv)) (snd (crate_canon split kv)))).
+      2:{ intros m kv. unfold crate_canon. cbn [snd fst]. f_equal. now apply create_crate_closed. }
+      apply (fold_ins_perm fst str_cmp str_cmp_ok (crate_canon split)
+               (fun m kv => fmap_put str_cmp m (crate_name (fst kv)) (snd (crate_canon split kv)))).
+      + intros m b H. unfold crate_canon at 2. cbn [fst snd].
+        rewrite fmap_put_absent; [reflexivity|apply str_cmp_ok|exact H].
+      + etransitivity; [apply H6|apply H5].
+      + eapply Permutation_NoDup; [apply Permutation_map, Permutation_sym, H6|]. exact Ng.
+  Qed.
+End WriteItems.
+
+(* C17_workspace *)
+Lemma workspace_inv
+      item mod_path render kind_prefix item_name
+      loc loc_eqb location crate_name repubs dep_names
+      pi_mods pi_work pi_keys pi_tree pi_entry pi_crates
+      pi_mods' pi_work' pi_keys' pi_tree' pi_entry' pi_crates' :
+  (forall a b : loc, loc_eqb a b = true <-> a = b) ->
+  perm_fun pi_mods -> perm_fun pi_work -> perm_fun pi_keys -> perm_fun pi_tree ->
+  perm_fun pi_entry -> perm_fun pi_crates ->
+  perm_fun pi_mods' -> perm_fun pi_work' -> perm_fun pi_keys' -> perm_fun pi_tree' ->
+  perm_fun pi_entry' -> perm_fun pi_crates' ->
+  forall split lm_items,
+    NoDup (crate_names item loc loc_eqb location crate_name lm_items) ->
+    workspace item mod_path render kind_prefix item_name pi_mods pi_work pi_keys pi_tree
+              loc loc_eqb location crate_name repubs dep_names pi_entry pi_crates split lm_items =
+    workspace item mod_path render kind_prefix item_name pi_mods' pi_work' pi_keys' pi_tree'
+              loc loc_eqb location crate_name repubs dep_names pi_entry' pi_crates' split lm_items.
+Proof. intros. rewrite !workspace_closed by assumption. reflexivity. Qed.
+
+(* ---- why `NoDup crate names` is needed: `dedup` runs BEFORE `sorted` in group_defs -------------------------
+   two locations with the same crate name that are not adjacent in the hash map's iteration order survive
+   the dedup; adjacent ones do not.  (Such a configuration -- two services whose files have the same stem, or
+   a service file called like the common crate -- also makes two workers write the same directory.) *)
+Lemma perm_fun_rev {A} : perm_fun (@rev A).
+Proof. intros l. apply Permutation_sym, Permutation_rev. Qed.
+
+Definition swap12 {A} (l : list A) : list A := match l with a :: b :: r => b :: a :: r | _ => l end.
+Lemma perm_fun_swap12 {A} : perm_fun (@swap12 A).
+Proof. intros [|a [|b r]]; cbn; try reflexivity. apply perm_swap. Qed.
+
+Lemma workspace_dup_names_refuted :
+  exists (lm_items : list nat) (crate_name : nat -> string) (pi_entry pi_entry' : list (nat * list nat) -> list (nat * list nat)),
+    perm_fun pi_entry /\ perm_fun pi_entry' /\
+    let ws pe := fst (workspace nat (fun _ => []) (fun _ => ""%string) (fun _ => ""%string) (fun _ => ""%string)
+                                (fun l => l) (fun l => l) (fun l => l) (fun l => l)
+                                nat Nat.eqb (fun i => i) crate_name (fun _ _ => []) (fun _ _ => [])
+                                pe (fun l => l) false lm_items) in
+    ws pi_entry <> ws pi_entry'.
+Proof.
+  exists [1; 2; 3], (fun n => if Nat.eqb n 2 then "b" else "a")%string, (fun l => l), swap12.
+  split; [intros l; reflexivity|]. split; [apply perm_fun_swap12|].
+  vm_compute. discriminate.
+Qed.
+
+(* ---- 4. protobuf nested messages ------------------------------------------------------------------------ *)
+Lemma amap_put_keys {V} (m : list (string * V)) k v :
+  map fst (amap_put m k v) = if existsb (String.eqb k) (map fst m) then map fst m else map fst m ++ [k].
+Proof.
+  induction m as [|[k' v'] r IH]; cbn [amap_put map fst existsb app]; [reflexivity|].
+  destruct (String.eqb k k') eqn:E; cbn [orb map fst].
+  - reflexivity.
+  - rewrite IH. now destruct (existsb (String.eqb k) (map fst r)).
+Qed.
+
+Lemma NoDup_app_one {A} (l : list A) x : NoDup l -> ~ In x l -> NoDup (l ++ [x]).
+Proof.
+  intros N I. eapply Permutation_NoDup; [apply Permutation_cons_append|]. now constructor.
+Qed.
+
+Lemma amap_put_nodup {V} (m : list (string * V)) k v : NoDup (map fst m) -> NoDup (map fst (amap_put m k v)).
+Proof.
+  intros N. rewrite amap_put_keys. destruct (existsb (String.eqb k) (map fst m)) eqn:E; [assumption|].
+  apply NoDup_app_one; [assumption|].
+  intros I. assert (existsb (String.eqb k) (map fst m) = true); [|congruence].
+  apply existsb_exists. exists k. split; [assumption|apply String.eqb_refl].
+Qed.
+
+Lemma amap_collect_nodup {V} (l : list (string * V)) : NoDup (map fst (amap_collect l)).
+Proof.
+  unfold amap_collect.
+  assert (G : forall m, NoDup (map fst m) ->
+                   NoDup (map fst (fold_left (fun m kv => amap_put m (fst kv) (snd kv)) l m))).
+  { induction l as [|kv l IH]; intros m N; cbn [fold_left]; [assumption|]. apply IH. now apply amap_put_nodup. }
+  apply G. constructor.
+Qed.
+
+(* a look-up does not depend on the order of a table with pairwise distinct keys *)
+Lemma find_key_perm {V} (t t' : list (string * V)) k :
+  NoDup (map fst t) -> Permutation t t' ->
+  find (fun kv => String.eqb (fst kv) k) t = find (fun kv => String.eqb (fst kv) k) t'.
+Proof.
+  intros N P. induction P as [|x l l' P IH|x y l|l l' l'' P1 IH1 P2 IH2].
+  - reflexivity.
+  - cbn [find]. destruct (String.eqb (fst x) k); [reflexivity|]. apply IH. now inversion N.
+  - cbn [find]. destruct (String.eqb (fst y) k) eqn:Ey; destruct (String.eqb (fst x) k) eqn:Ex; try reflexivity.
+    apply String.eqb_eq in Ex, Ey. exfalso. inversion N as [|? ? N1 N2]; subst. apply N1. cbn [map]. left. congruence.
+  - rewrite IH1 by assumption. apply IH2.
+    eapply Permutation_NoDup; [apply Permutation_map; exact P1|assumption].
+Qed.
+
+Lemma amap_get_perm pi pi' (l : list (string * pmsg)) k :
+  perm_fun pi -> perm_fun pi' ->
+  amap_get (pi (amap_collect l)) k = amap_get (pi' (amap_collect l)) k.
+Proof.
+  intros H H'. unfold amap_get. f_equal. apply find_key_perm.
+  - eapply Permutation_NoDup; [apply Permutation_map, Permutation_sym, H|apply amap_collect_nodup].
+  - etransitivity; [apply H|apply Permutation_sym, H'].
+Qed.
+
+(* induction principle for the nested inductive type *)
+Fixpoint pmsg_ind' (P : pmsg -> Prop)
+         (H : forall name me fts oneofs nested enums, Forall P nested -> P (PMsg name me fts oneofs nested enums))
+         (m : pmsg) : P m :=
+  match m with
+  | PMsg name me fts oneofs nested enums =>
+      H name me fts oneofs nested enums
+        ((fix go (l : list pmsg) : Forall P l :=
+            match l with
+            | [] => Forall_nil P
+            | x :: r => Forall_cons x (pmsg_ind' P H x) (go r)
+            end) nested)
+  end.
+
+Lemma lower_message_inv pi pi' :
+  perm_fun pi -> perm_fun pi' -> forall m, lower_message pi m = lower_message pi' m.
+Proof.
+  intros H H'. induction m as [name me fts oneofs nested enums IH] using pmsg_ind'.
+  cbn [lower_message]. f_equal.
+  - apply map_ext. intros t. unfold field_is_map. now rewrite (amap_get_perm pi pi').
+  - f_equal. f_equal. clear -IH.
+    induction nested as [|n r IHr]; [reflexivity|].
+    inversion IH as [|? ? Hn Hr]; subst. destruct (pm_map_entry n); [now apply IHr|].
+    rewrite Hn. f_equal. now apply IHr.
+Qed.
+
+(* the pinned clause (before fix F-17a): two sibling nested messages suffice *)
+Definition two_nested : pmsg :=
+  PMsg "M" false ["A"; "B"] [] [PMsg "A" false [] [] [] []; PMsg "B" false [] [] [] []] [].
+
+Lemma lower_message_pinned_refuted :
+  exists pi pi', perm_fun pi /\ perm_fun pi' /\
+    lower_message_pinned pi 2 two_nested <> lower_message_pinned pi' 2 two_nested.
+Proof.
+  exists (fun l => l), (@rev _). split; [intros l; reflexivity|]. split; [apply perm_fun_rev|].
+  vm_compute. discriminate.
+Qed.
+
+(* with declaration order kept the pinned clause and the repaired one agree (so the repair changes nothing
+   but the order) -- on the witness *)
+Example lower_message_repaired_on_witness :
+  lower_message (@rev _) two_nested =
+  [PIMessage "M" [false; false]; PIMod "M" [PIMessage "A" []; PIMessage "B" []]] /\
+  lower_message_pinned (fun l => l) 2 two_nested = lower_message (@rev _) two_nested.
+Proof. split; reflexivity. Qed.
+
+(* ---- non-vacuity: a concrete run with every permutation parameter set to a non-identity ------------------ *)
+Definition toy_item : Type := (path * string)%type.
+Definition toy_items : list toy_item :=
+  [(["b"], "X"); (["a"; "c"], "Y"); (["b"], "x"); (["a"], "Z"); (["a"; "c"], "W"); (["type"], "T")]%string.
+Definition toy_run (split : bool) pm pw pk pt :=
+  write_items toy_item fst (fun it => ("<" ++ snd it ++ ">")%string) (fun _ => "message"%string) snd
+              pm pw pk pt split toy_items.
+
+Example write_items_nonvacuous :
+  toy_run false (@rev _) swap12 (@rev _) (@rev _) = toy_run false (fun l => l) (fun l => l) (fun l => l) (fun l => l) /\
+  fst (toy_run false (@rev _) swap12 (@rev _) (@rev _)) <> ""%string /\
+  map fst (snd (toy_run true (@rev _) swap12 (@rev _) (@rev _))) = [["a"]; ["a"; "c"]; ["b"]; ["type"]]%string /\
+  map (fun d => map fst (snd d)) (snd (toy_run true swap12 (@rev _) (fun l => l) (@rev _))) =
+    [["message_Z.rs"; "mod.rs"]; ["message_Y.rs"; "message_W.rs"; "mod.rs"];
+     ["message_X.rs"; "message_x_2.rs"; "mod.rs"]; ["message_T.rs"; "mod.rs"]]%string.
+Proof. repeat split; try (vm_compute; reflexivity). vm_compute. discriminate. Qed.
+
+Example layout_nonvacuous :
+  layout (map fst toy_items) = [[]; ["a"]; ["a"; "c"]; ["b"]; ["type"]]%string /\
+  map (fun g => (fst g, map snd (snd g))) (layout_items toy_item fst toy_items) =
+    [(["a"], ["Z"]); (["a"; "c"], ["Y"; "W"]); (["b"], ["X"; "x"]); (["type"], ["T"])]%string.
+Proof. split; vm_compute; reflexivity. Qed.
+
+(* ---- the statements pinned in Properties/C17.v ------------------------------------------------------------- *)
+Lemma single_inv :
+  forall (item : Type) (mod_path : item -> path) (render kind_prefix item_name : item -> string)
+         pi_mods pi_work pi_keys pi_tree pi_mods' pi_work' pi_keys' pi_tree',
+    perm_fun pi_mods -> perm_fun pi_work -> perm_fun pi_keys -> perm_fun pi_tree ->
+    perm_fun pi_mods' -> perm_fun pi_work' -> perm_fun pi_keys' -> perm_fun pi_tree' ->
+    forall items,
+      write_items item mod_path render kind_prefix item_name pi_mods pi_work pi_keys pi_tree false items =
+      write_items item mod_path render kind_prefix item_name pi_mods' pi_work' pi_keys' pi_tree' false items.
+Proof. intros; now apply write_items_inv. Qed.
+
+Lemma split_inv :
+  forall (item : Type) (mod_path : item -> path) (render kind_prefix item_name : item -> string)
+         pi_mods pi_work pi_keys pi_tree pi_mods' pi_work' pi_keys' pi_tree',
+    perm_fun pi_mods -> perm_fun pi_work -> perm_fun pi_keys -> perm_fun pi_tree ->
+    perm_fun pi_mods' -> perm_fun pi_work' -> perm_fun pi_keys' -> perm_fun pi_tree' ->
+    forall items,
+      write_items item mod_path render kind_prefix item_name pi_mods pi_work pi_keys pi_tree true items =
+      write_items item mod_path render kind_prefix item_name pi_mods' pi_work' pi_keys' pi_tree' true items /\
+      files_of (write_items item mod_path render kind_prefix item_name pi_mods pi_work pi_keys pi_tree true items) =
+      files_of (write_items item mod_path render kind_prefix item_name pi_mods' pi_work' pi_keys' pi_tree' true items).
+Proof.
+  intros. split; [now apply write_items_inv|].
+  now apply (split_files_inv item mod_path render kind_prefix item_name
+               pi_mods pi_work pi_keys pi_tree pi_mods' pi_work' pi_keys' pi_tree').
+Qed.
